@@ -10,6 +10,13 @@ CLAIMS = {
                 'contains/refine comparator duality at every call site. Exactness of the antichain algorithms themselves is not decided.',
         'note': 'trusted: clang 14 AST/CFG, exporter, the registered flags->entity table; rules are necessary conditions, not a proof of language inclusion',
     },
+    'C02': {
+        'text': 'Decides structural necessary conditions of exact explicit union/intersection: on every return of Union/UnionDisjointStates both operands have contributed '
+                'final states and rules (one shared by-reference counter for the fresh ids), product pairs are (state of lhs, state of rhs) and each component is only looked up in its own operand, '
+                'a product state is marked final only on evidence from both components, one-sided tests in product conditions are mirrored for the other operand, new pairs are enqueued, '
+                'and operands cannot be written through shared storage (COW). Language equality itself is not decided.',
+        'note': 'trusted: clang 14 AST, exporter; side analysis is intra-procedural (data flows through locals, range-for variables, out-parameters and swaps)',
+    },
     'C03': {
         'text': 'Decides structural necessary conditions of language-preserving trimming: no cardinality comparison guards returning/sharing the unchanged input (SIZEEQ), '
                 'every first-visit insert enqueues the element and nothing but the enqueue depends on novelty, so no rule of an already known state is dropped (WORKLIST), '
@@ -27,6 +34,12 @@ CLAIMS = {
                 'sanitised operands for congruence; default throws), soundness of the subset memo tables (every add implied by the branch, every hit implies its verdict), '
                 'comparator/candidate duality of the two antichains, and full-equality lookup of the macro-state cache. Correctness of bisimulation up to congruence is not decided.',
         'note': 'trusted: clang 14 AST/CFG, exporter, memo-table meaning (subsetMap_: subset, subsetNotMap_: not subset) fixed from the reader',
+    },
+    'C10': {
+        'text': 'Decides structural necessary conditions of the exact NFA operations: both operands contribute finals, starts, start symbols and edges to a union (each set from the same-named set of the operand); '
+                'product pairs keep the operands apart and start/final marking needs evidence from both components; every start state written has a start-symbol entry (PAIRFIELD); the witness search looks at the '
+                'finality of every state it reaches (FINCHK); worklists enqueue first visits; COW. Language equalities are not decided.',
+        'note': 'trusted: clang 14 AST, exporter',
     },
     'C11': {
         'text': 'Decides the copy-on-write discipline that value semantics of explicit tree/finite automata rests on: every mutation of a shared rule store '
